@@ -26,6 +26,7 @@ type lifeScen struct {
 	rejected   bool
 	timedOut   bool
 	gi         *model.GroupInfo
+	parkedLost bool     // a parked genuine share was not handed to the party after it registered
 	overStored bool     // an over-long signer id sits among the messages round0 stored
 	pending    []string // id hex of honest senders whose messages sit in Processor.futureMessages[hash]
 	npending   int
@@ -88,8 +89,10 @@ func (s *scen) afterAccept() {
 			}
 			time.Sleep(100 * time.Microsecond)
 		}
-		if !s.round.WaitSenders(l.pending, 8*time.Second) {
-			panic("dispatched honest messages did not reach the share set")
+		if !s.round.WaitSenders(l.pending, 2*time.Second) {
+			// a genuine share that was parked under the block hash never reached the round: the state
+			// line will differ from the model's; the searcher names it
+			l.parkedLost = true
 		}
 	}
 	l.pending, l.npending = nil, 0
@@ -215,6 +218,11 @@ func (r *runner) lifeLines(s *scen, lines []string, stopAtTimeout bool) []string
 func (r *runner) runLife(sc script, _ interface{}) {
 	s := r.lifeSetup(sc)
 	r.lifeLines(s, sc.lines[1:], false)
+	if r.search && s.life.parkedLost {
+		r.addViol(s, "parked-honest-share-not-delivered",
+			"a genuine share filed under the block hash before the party was registered there was not handed to the party afterwards (dropped or withheld while parked)",
+			map[string]interface{}{"state": r.lifeObserve(s, s.hash, "end")})
+	}
 	if r.search && s.lifeStage() == "signing" && !s.life.rejected && !s.life.timedOut {
 		r.checkFinal(s)
 	}
